@@ -505,15 +505,10 @@ def r5_mnt_id_degradation(ctx):
         for s in b.blocks[x].stmts:
             if s.kind == "assign" and s.rv["k"] == "agg" and s.rv.get("adt") == "std::option::Option" and s.rv.get("variant") == "None":
                 none_blocks.add(x)
-    errnos = set()
-    untested = False
-    sw = [x for x in after if b.blocks[x].term.kind == "switch" and b.blocks[x].term.raw["dty"] == "i32"]
-    for x in sw:
-        for e in cfg.succ.get(x, []):
-            if cfg.edge_targets_reachable([e]) & none_blocks:
-                errnos.add(e.label[1])
-    if none_blocks and any(nb in cfg.edge_targets_reachable(r["err"], cut_nodes=sw) for nb in none_blocks):
-        untested = True
+    from ..cut import errno_branches
+    brs = [br for br in errno_branches(b, ctx.tracer) if br["bb"] in after]
+    errnos = {br["errno"] for br in brs if cfg.edge_targets_reachable(br["eq"]) & none_blocks}
+    untested = bool(none_blocks) and any(nb in cfg.edge_targets_reachable(r["err"], cut_edges=[e.key() for br in brs for e in br["eq"]]) for nb in none_blocks)
     if errnos == {ENOSYS, EINVAL} and not untested:
         out.append(holds("C10.R5", "fetch_mnt_id:degradation-set", st[0].where(), "mount id degrades to 'unknown' only for ENOSYS/EINVAL; every other errno is an error"))
     else:
